@@ -1,9 +1,7 @@
 # properties not (yet) claimed, with the reason; tools/gen_manifest.py drops an entry once props/<id>.py exists
 HOOK_COMMITS = []
 NOT_APPLICABLE = {
-    'C01': 'check not built yet in this revision (planned: stop-test harness, DESIGN 6/C01); the convergence-rate half has no bounded symbolic encoding',
     'C02': 'order of accuracy is a limit statement over a refinement family of converged solves (33x64 ... 513x1024 unknowns, transcendental solutions); there is no bounded real-arithmetic encoding an SMT solver could decide (DESIGN section 9)',
-    'C09': 'check not built yet in this revision',
     'C11': 'check not built yet in this revision',
     'C12': 'check not built yet in this revision',
     'C13': 'check not built yet in this revision',
